@@ -51,6 +51,7 @@ class BaseMerger(ABC):
                     or data.association is None
                     or data.n_values is None
                     or data.values is None
+                    or data.association.name not in data_count
                 ):
                     continue
 
